@@ -18,8 +18,11 @@ def _keys(out):
 
 def _run_all(S):
     res = {}
+    only = os.environ.get("JV_ONLY", "").split(",") if os.environ.get("JV_ONLY") else None
     for i in range(1, 21):
         pid = f"C{i:02d}"
+        if only and pid not in only:
+            continue
         env = dict(os.environ, JV_EVIDENCE_DIR=os.path.join(S, ".ev"), JV_REPO=S)
         r = subprocess.run(["/venv/bin/python", os.path.join(VSNAP, "bin/check"), pid, "--repo", S], env=env, capture_output=True, text=True, timeout=900)
         res[pid] = (r.returncode, _keys(r.stdout))
